@@ -32,6 +32,7 @@ def run(ck):
     fl = F.fn(CF + "::filter")
     mt = F.fn(CF + "::Rule::matches")
     ck.touch(pr, ct, fl, mt)
+    shortcut_matching(ck, mt)
     parse_rules(ck, pr, ct)
     evaluate(ck, fl, mt)
     type_table(ck, pr, mt)
@@ -453,3 +454,37 @@ def type_table(ck, pr, mt):
     else:
         ck.ob("C15-O3", sitestr(mt), True, "%d cases (suffix none/%s x 5 message types x pattern matches or not) evaluated through parseRules' stores and Rule::matches: verdict = match && (untyped || type named by the suffix)"
               % (rows, "/".join(suffixes)), key="Rule::matches|type-table")
+
+
+def shortcut_matching(ck, mt):
+    """C15-O6: a wildcard rule decided without the regular expression.  `text.startsWith(p) && text.endsWith(s)` is what `p*s` means only
+    for texts at least |p| + |s| long; for a shorter text the two tests look at overlapping characters (rule `ab*ba`, category `aba`)."""
+    ck.rule("C15-O6", "Rule::matches decides through the regular expression; a prefix-and-suffix short cut for single-wildcard rules also requires the category to be at least as long as prefix plus suffix")
+    cat = mt.params[0]["decl"] if mt.params else None
+    pairs = []
+    for n in mt.all_nodes():
+        if n.get("k") == "binop" and n.get("op") == "&&":
+            parts = []
+            stack = [n]
+            while stack:
+                x = skip_copies(stack.pop())
+                if isinstance(x, dict) and x.get("k") == "binop" and x.get("op") == "&&":
+                    stack += [x.get("lhs"), x.get("rhs")]
+                elif isinstance(x, dict):
+                    parts.append(x)
+            sw = [x for x in parts if is_call(x, "QString::startsWith") and is_ref_to(skip_copies(x).get("obj"), cat)]
+            ew = [x for x in parts if is_call(x, "QString::endsWith") and is_ref_to(skip_copies(x).get("obj"), cat)]
+            if sw and ew and not any(p_.get("id") == n.get("id") for p_, _, _ in pairs):
+                pairs.append((n, sw[0], ew[0]))
+    # keep outermost conjunctions only
+    outer = [p_ for p_ in pairs if not any(any(y.get("id") == p_[0]["id"] for y in walk(q[0])) and q[0]["id"] != p_[0]["id"] for q in pairs)]
+    if not outer:
+        ck.ob("C15-O6", sitestr(mt), True, "Rule::matches has no prefix-and-suffix short cut", key="Rule::matches|overlap")
+        return
+    lens = [x for x in mt.all_nodes() if x.get("k") == "binop" and x.get("op") in ("<", ">", "<=", ">=") and
+            any(is_call(y, ("QString::length", "QString::size", "QString::count")) and is_ref_to(skip_copies(y).get("obj"), cat) for y in walk(x))]
+    for n, sw, ew in outer:
+        ck.ob("C15-O6", sitestr(mt, n), False if not lens else None,
+              "Rule::matches decides a wildcard rule by %s && %s with no test of the category's length: a category shorter than prefix + suffix passes on overlapping characters "
+              "(rule `ab*ba=false`, category `aba`), which the pattern ^ab.*ba$ does not match" % (describe(sw)[:40], describe(ew)[:40]) if not lens else
+              "Rule::matches has a prefix-and-suffix short cut with a length test (%s) this rule does not evaluate" % describe(lens[0])[:50], key="Rule::matches|overlap")
